@@ -92,6 +92,19 @@ InvDigest == lastOut # <<>> => lastOut[1] = lastOut[2]
 \* the buffer is empty only in a fresh unkeyed context (the last block is always held back)
 InvBuf == \A x \in Ctxs : ctx[x].live => /\ ctx[x].buflen <= B
                                        /\ (ctx[x].buflen = 0 => (ctx[x].fed = <<>> /\ ctx[x].key = 0))
+\* ---- guided generation ("reuse matrix"): every history  update{0,2} R update{0,2} finalize  on context 1, R any call that re-initialises
+\* the context (reset, finalize_reset, and their keyed forms): what the context held when it was re-initialised x what it is fed afterwards.
+\* Used as a CONSTRAINT together with EmitReuse (see MacObj.tla for the motivation).
+IsUpd(o) == o \in {"update_mut", "new"}                 \* ("new" = the construction record some machines log first)
+IsRe(o) == o \in {"reset", "finalize_reset", "reset_with_key", "finalize_reset_with_key"}
+ReAt == IF \E i \in 1..Len(hist) : IsRe(hist[i].op) THEN CHOOSE i \in 1..Len(hist) : IsRe(hist[i].op) /\ \A j \in 1..(i - 1) : ~IsRe(hist[j].op) ELSE 0
+UpdOnly(p) == Len(p) <= 2 /\ \A i \in 1..Len(p) : IsUpd(p[i].op) /\ p[i].x = 1
+ReuseShape == LET k == ReAt IN
+              IF k = 0 THEN UpdOnly(hist)
+              ELSE /\ UpdOnly(SubSeq(hist, 1, k - 1)) /\ hist[k].x = 1
+                   /\ LET a == SubSeq(hist, k + 1, Len(hist)) IN
+                      IF Len(a) > 0 /\ a[Len(a)].op = "finalize" THEN a[Len(a)].x = 1 /\ UpdOnly(SubSeq(a, 1, Len(a) - 1)) ELSE UpdOnly(a)
+EmitReuse == (Gen /\ ReAt > 0 /\ hist[Len(hist)].op = "finalize") => PrintT(ToJson(<<"GEN", hist>>))
 Emit == (Gen /\ nops = MaxOps /\ \E i \in 1..Len(hist) : hist[i].op \in {"finalize", "finalize_reset", "finalize_reset_with_key"})
            => PrintT(ToJson(<<"GEN", hist>>))
 =============================================================================
